@@ -33,10 +33,10 @@ const groupG = `{"users":{"alice":{"password":"p","permissions":"op"},"bob":{"pa
 var users = []string{"bob", "carol", "alice"} // c0 publisher, c1 subscriber, c2 operator/subscriber
 
 var requests = map[string]map[string][]string{
-	"none":   {},
-	"all":    {"": {"audio", "video"}},
-	"camA":   {"camera": {"audio"}},
-	"low":    {"": {"video-low"}},
+	"none": {},
+	"all":  {"": {"audio", "video"}},
+	"camA": {"camera": {"audio"}},
+	"low":  {"": {"video-low"}},
 	// both qualities asked for: the full one wins
 	"both":   {"": {"audio", "video", "video-low"}},
 	"screen": {"screenshare": {"video"}},
@@ -308,6 +308,9 @@ func sdpKinds(s string) []string {
 
 func str(v any) string { s, _ := v.(string); return s }
 
+// offers of already-replaced streams seen (not judged, see observe)
+var staleOffers int
+
 // observe checks every offer/close written by a transition.
 func (w *world) observe(all [][]sig.Msg, actor int, kind string) *core.Violation {
 	for k, ms := range all {
@@ -334,6 +337,17 @@ func (w *world) observe(all [][]sig.Msg, actor int, kind string) *core.Violation
 				}
 				want := requestedKinds(sb, s)
 				for _, mk := range sdpKinds(str(m["sdp"])) {
+					// a replaced stream lives on at its subscribers until the
+					// replacement is pushed (the delayed task): the publisher
+					// no longer lists it, so a change of request cannot reach
+					// it, and a renegotiation in that window (the
+					// subscriber's answer) re-offers what it held.  It is
+					// torn down by the replacement; the quiescence oracle
+					// checks that.  Only offers of live streams are judged.
+					if !s.alive {
+						staleOffers++
+						break
+					}
 					if !want[mk] {
 						return viol("offer-unrequested-kind", fmt.Sprintf("offer of %s (label %s) to c%d contains %s, which its request %q does not name for that label", id, s.label, k, mk, sb.request))
 					}
@@ -719,6 +733,11 @@ func presets() map[string][]seqx.Op {
 		"published-all-low":          cat(pub, []seqx.Op{op{C: 1, Kind: "request", Arg: "all"}, op{C: 2, Kind: "join", Arg: "g"}, op{C: 2, Kind: "request", Arg: "low"}}, stream),
 		"published-camA-other-group": cat(pub, []seqx.Op{op{C: 1, Kind: "request", Arg: "camA"}, op{C: 2, Kind: "join", Arg: "h"}, op{C: 2, Kind: "request", Arg: "all"}}, stream),
 		"published-then-request":     cat(pub, stream, []seqx.Op{op{C: 2, Kind: "join", Arg: "g"}}),
+		// the publisher offered while alone (its delayed push is still
+		// pending, with the member list of that moment), then a subscriber
+		// joined and asked for everything; the tracks are yet to come
+		"offered-alone-then-joined": {op{C: 0, Kind: "join", Arg: "g"}, op{C: 0, Kind: "offer", Arg: "s1", Arg2: "camera"},
+			op{C: 1, Kind: "join", Arg: "g"}, op{C: 1, Kind: "request", Arg: "all"}},
 	}
 }
 
